@@ -71,9 +71,116 @@ def handleRun (fields : List String) : String :=
     | _ => "BADREQ query"
   | _ => "BADREQ fields"
 
+/-! ### C19 / C16: `TABLE`, `TERM`, `TERMR` -/
+
+def hexOfStr (s : List Char) : String := hexOfString (String.ofList s)
+
+def parseTermSize (s : String) : Option (Option (Nat × Nat)) :=
+  match toks s with
+  | ["none"] => some none
+  | [w, h] =>
+    match w.toNat?, h.toNat? with
+    | some w, some h => some (some (w, h))
+    | _, _ => none
+  | _ => none
+
+def pRowObj : P Fields := fun ts =>
+  match pValue ts with
+  | some (.obj kvs, r) => some (kvs, r)
+  | _ => none
+
+/-- one printer call: `AGG <ncols> S<col>… <nrows> O…` or `REC S<raw> O…` -/
+def runTableCall (env : Pretty.Env) (st : Pretty.St) (call : String) : Option (Outcome (List Char × Pretty.St)) :=
+  match toks call with
+  | "AGG" :: rest =>
+    match pList pStr rest with
+    | some (cols, r1) =>
+      match pList pRowObj r1 with
+      | some (rows, []) => some (Pretty.formatAggregate env st { columns := cols, rows := rows })
+      | _ => none
+    | none => none
+  | "REC" :: rest =>
+    match pStr rest with
+    | some (raw, r1) =>
+      match pRowObj r1 with
+      | some (data, []) => some (Pretty.formatRecord env st { data := data, raw := raw })
+      | _ => none
+    | none => none
+  | _ => none
+
+def showPrettyState (st : Pretty.St) : String :=
+  let ws := st.widths.toArray.qsort (fun a b => a.1 < b.1) |>.toList
+  String.intercalate " " (["ST", toString ws.length] ++ ws.flatMap (fun kv => ["S" ++ hexOfString kv.1, toString kv.2]) ++
+    ["ORD", toString st.order.length] ++ st.order.map (fun k => "S" ++ hexOfString k))
+
+def handleTable (fields : List String) : String :=
+  match fields with
+  | term :: bufs :: calls =>
+    match parseTermSize term, (toks bufs).map String.toNat? with
+    | some t, [some mn, some mx] =>
+      let env : Pretty.Env := { cfg := { minBuf := mn, maxBuf := mx }, term := t }
+      let rec go (st : Pretty.St) (cs : List String) (acc : List String) : String :=
+        match cs with
+        | [] => String.intercalate " " ("OK" :: acc.reverse ++ [showPrettyState st])
+        | c :: cs =>
+          match runTableCall env st c with
+          | none => "BADREQ call"
+          | some (.ok (out, st')) => go st' cs (("T" ++ hexOfStr out) :: acc)
+          | some (.panic p) => String.intercalate " " ("OK" :: (("P" ++ hexOfString p) :: acc).reverse)
+          | some (.err k) => "SKIP err " ++ k
+          | some (.unmodelled w) => "SKIP " ++ w
+      go {} calls []
+    | _, _ => "BADREQ table header"
+  | _ => "BADREQ fields"
+
+def showScreen (s : Term.Screen) : String :=
+  String.intercalate " " (["SCR", toString s.cr, toString s.cc] ++ s.rows.map (fun r => "R" ++ hexOfStr r))
+
+def parseWH (s : String) : Option (Nat × Nat) :=
+  match (toks s).map String.toNat? with
+  | [some w, some h] => some (w, h)
+  | _ => none
+
+def handleTerm (fields : List String) : String :=
+  match fields with
+  | wh :: hex :: _ =>
+    match parseWH wh, stringOfHex hex.toList with
+    | some (w, h), some bytes =>
+      match Term.display (Term.Screen.blank w h) bytes.toList with
+      | some scr => showScreen scr
+      | none => "NONE"
+    | _, _ => "BADREQ term"
+  | _ => "BADREQ fields"
+
+/-- `TERMR <w> <h> \t F<hex frame> …`: the bytes the tty renderer writes for the frames and the
+screen they leave -/
+def handleTermR (fields : List String) : String :=
+  match fields with
+  | wh :: frames :: _ =>
+    let fs := (toks frames).map (fun t => match t.toList with
+      | 'F' :: h => stringOfHex h
+      | _ => none)
+    match parseWH wh, fs.all Option.isSome with
+    | some (w, h), true =>
+      let frames := fs.filterMap (fun o => o.map String.toList)
+      let bytes := Term.ttyBytes {} frames
+      let scr := match Term.display (Term.Screen.blank w h) bytes with
+        | some scr => showScreen scr
+        | none => "NONE"
+      "BYTES " ++ hexOfStr bytes ++ " " ++ scr
+    | _, _ => "BADREQ termr"
+  | _ => "BADREQ fields"
+
 def handle (line : String) : String :=
   match line.splitOn "\t" with
   | "RUN" :: rest => handleRun rest
+  | "TABLE" :: rest => handleTable rest
+  | "TERM" :: rest => handleTerm rest
+  | "TERMR" :: rest => handleTermR rest
+  | "PARSE" :: hexquery :: _ =>
+    (match stringOfHex hexquery.toList with
+     | some s => Ag.Lang.answer (Ag.Lang.parseQuery s)
+     | none => "BADREQ utf8")
   | "PING" :: _ => "PONG"
   | _ => "BADREQ cmd"
 
